@@ -3,7 +3,7 @@
    sites modelled in Lang/Order.v; [mstate_accounted]: a module-level object may be mutated by a
    function only if it is the verification hook's own log (written only under REDUINO_VERIF=1, never read). *)
 From Coq Require Import ZArith List Bool String.
-From RV Require Import Base.Wire Base.Text Lang.Order Gen.SetSites.
+From RV Require Import Base.Wire Base.Text Lang.Order Lang.DevSession Gen.SetSites.
 Import ListNotations.
 Open Scope Z_scope.
 
@@ -36,3 +36,28 @@ Definition hook_fn : text := txt "_verif_note_ignored"%string.
 
 Definition import_accounted (i : imp) : bool :=
   tmem (i_module i) allowed_modules || (text_eqb (i_module i) (txt "os"%string) && text_eqb (i_fn i) hook_fn).
+
+(* ---------------------------------------------------------------- module-level mutable objects *)
+(* a use of a module-level (or class-level) mutable object must be a read-only one; the only exception is the verification
+   hook appending to its own log *)
+Definition muse_accounted (u : muse) : bool :=
+  (u_class u =? 0) || (text_eqb (u_name u) hook_log && (u_class u =? 2)).
+
+(* the way the defaults of the ctx keys are made: never from a module-level object *)
+Definition dsite_accounted (d : dsite) : bool := negb (d_class d =? 2).
+
+(* every key parse() seeds its ctx with is seeded with a fresh object *)
+Definition preseed_accounted (e : text * bool) : bool := snd e.
+
+(* ---------------------------------------------------------------- the configuration of Lang/DevSession.v read off the source *)
+Definition gen_pre (k : key) : bool :=
+  existsb (fun e => text_eqb (fst e) (key_name k) && snd e) ctx_preseeded
+  || existsb (fun e => text_eqb (fst e) (key_name k) && (snd e =? 0)) ctx_prologue.
+
+Definition gen_default (method : Z) (k : key) : option mobj :=
+  match filter (fun d => text_eqb (d_key d) (key_name k) && (d_method d =? method) && (d_class d =? 2)) default_sites with
+  | d :: _ => Some (d_obj d)
+  | [] => None
+  end.
+
+Definition cfg_gen : cfg := mk_cfg gen_pre (gen_default 1) (gen_default 0).
